@@ -851,9 +851,12 @@ func (ls *LanceroSource) distributeData(buffersMsg BuffersChanType) *dataBlock {
 	// external trigger search must occur before Mix, since mix alters FB in place
 	externalTriggerRowcounts := make([]int64, 0)
 	nrows := ls.devices[0].nrows
+	ncols := ls.devices[0].ncols
 	for frame := 0; frame < framesUsed; frame++ { // frame within this block, need to add ls.nextFrameNum for consistent timing across blocks
 		for row := 0; row < nrows; row++ { // search the first column for frame bit level triggers
-			channelIndex := row*2 + 1
+			// datacopies is still in READOUT order here (r0c0, r0c1, ..., r1c0, ...): the feedback
+			// word of column 0 in this row is the (row*ncols)-th word of the frame.
+			channelIndex := row*ncols*2 + 1
 			v := datacopies[channelIndex][frame]
 			externalTriggerState := (v & 0x02) == 0x02 // external trigger bit is 2nd least significant bit in feedback (odd channelIndex)
 			if externalTriggerState && !ls.externalTriggerLastState {
@@ -911,6 +914,12 @@ func (ls *LanceroSource) distributeData(buffersMsg BuffersChanType) *dataBlock {
 	}
 
 	return block
+}
+
+// releaseAfterFailedStart stops any adapter or collector that StartRun had already started when
+// it failed (e.g., the adapter started but the collector did not, or no frame bits were found).
+func (ls *LanceroSource) releaseAfterFailedStart() {
+	ls.stop()
 }
 
 // stop ends the data streaming on all active lancero devices.
